@@ -47,6 +47,7 @@ type Contract struct {
 	Modifies []*Clause
 	Loops    map[int]*LoopSpec
 	CallAsserts map[string][]*Clause // "callee#n" -> asserts checked before that call
+	RecvInv  []*ChanInv // content invariants of channel parameters (recvinv p(v): expr)
 	Reveal   []string // recursive spec functions whose definition the proof may unfold
 	Trusted  bool // external / assumed
 	Unverified bool // in-package contract whose body is not (yet) verified
@@ -232,6 +233,12 @@ func (S *Specs) LoadFile(path string, goFile bool) error {
 			for _, t := range strings.Fields(strings.ReplaceAll(rest, ",", " ")) {
 				cur.Props[t] = true
 			}
+		case "recvinv":
+			r := regexp.MustCompile(`^(\w+)\((\w+)\)\s*:\s*(.*)$`).FindStringSubmatch(rest)
+			if r == nil {
+				return fmt.Errorf("%s: cannot parse recvinv", src)
+			}
+			cur.RecvInv = append(cur.RecvInv, &ChanInv{Field: r[1], Var: r[2], C: mkClause("recvinv", r[3])})
 		case "reveal":
 			for _, t := range strings.Fields(strings.ReplaceAll(rest, ",", " ")) {
 				cur.Reveal = append(cur.Reveal, t)
@@ -287,6 +294,13 @@ func (S *Specs) LoadFile(path string, goFile bool) error {
 		case "at":
 			// at call Callee#n: assert E
 			r := regexp.MustCompile(`^call\s+(\S+)\s*:\s*assert\s+(.*)$`).FindStringSubmatch(rest)
+			if r == nil {
+				// at recv field#n: assert E   (blocking receive on the channel loaded from that struct field)
+				r = regexp.MustCompile(`^(recv\s+\S+)\s*:\s*assert\s+(.*)$`).FindStringSubmatch(rest)
+				if r != nil {
+					r[1] = strings.Join(strings.Fields(r[1]), " ")
+				}
+			}
 			if r == nil {
 				return fmt.Errorf("%s: cannot parse at-clause", src)
 			}
@@ -416,6 +430,9 @@ func (S *Specs) Finish() error {
 		all = append(all, c.Ensures...)
 		all = append(all, c.Modifies...)
 		all = append(all, c.Panics...)
+		for _, ri := range c.RecvInv {
+			all = append(all, ri.C)
+		}
 		for _, l := range c.Loops {
 			for _, lt := range l.Lets {
 				all = append(all, lt.C)
